@@ -552,8 +552,12 @@ pub fn main_xor(args: &[String]) {
         let none = json!({"fam": 0, "ip": [], "port": 0});
         let (b1, b2) = match back { Ok((p, q)) => (addr_json(p), addr_json(q)), Err(_) => (none.clone(), none) };
         let aj = addr_json(a);
+        // the attribute as constructed (never serialised), and a clone of it, asked directly
+        let xc = x.clone();
+        let same_direct = xc.addr(tid) == x.addr(tid) && xc.addr(other) == x.addr(other) && xc == x;
         writeln!(out, "{}", json!({"fam": aj["fam"], "ip": aj["ip"], "port": aj["port"], "tid": tw.to_be_bytes()[4..].to_vec(),
             "other_tid": ow.to_be_bytes()[4..].to_vec(), "wire": wire, "back": b1, "back_other": b2,
+            "direct": addr_json(x.addr(tid)), "direct_other": addr_json(x.addr(other)), "clone_same": same_direct,
             "write_same": wn == wbuf.len() && wbuf == wire})).unwrap();
     }
     out.flush().unwrap();
